@@ -2,6 +2,7 @@ import KinModel.Drv.Util
 import KinModel.Style
 import KinModel.StyleNest
 import KinModel.StyleContent
+import KinModel.StyleRequest
 open Lean
 namespace KinModel.Drv.C05
 open KinModel.Drv KinModel.Style
@@ -394,8 +395,85 @@ def handleFlat (j : Json) : Json :=
     ("unsupported", Json.bool unsupported),
     ("branches", jstrs branches)]
 
+/-! ### whole requests over a route's parameter lists, sequences of calls on one document (mode "req") -/
+
+def parseParam (j : Json) : Param :=
+  let omitS := getBool j "omitStyle" || getBool j "useDefaults"
+  let omitE := getBool j "omitExplode" || getBool j "useDefaults"
+  let cell : Cell := smOf (parseLoc (getStr j "in")) (if omitS then none else some (parseSty (getStr j "style")))
+    (if omitE then none else some (getBool j "explode"))
+  ⟨cell, chars (getStr j "name"), getBool j "required", getBool j "allowEmpty", parseSch (getD j "schema" .null)⟩
+
+def parseFullReq (j : Json) : FullReq :=
+  { pathParams := (getArr j "pathParams").map (fun kv => (chars (asStr (pair kv).1), chars (asStr (pair kv).2))),
+    query := (getArr j "query").map (fun kv => (chars (asStr (pair kv).1), (asArr (pair kv).2).map (fun v => chars (asStr v)))),
+    headers := (getArr j "headers").map (fun kv => (chars (asStr (pair kv).1), (asArr (pair kv).2).map (fun v => chars (asStr v)))),
+    cookies := (getArr j "cookies").map (fun kv => (chars (asStr (pair kv).1), chars (asStr (pair kv).2))) }
+
+def locStr : Loc → String
+  | .path => "path" | .query => "query" | .header => "header" | .cookie => "cookie"
+
+def perrJson (e : PErr) : Json := jstrs [locStr e.1, text e.2.1, verdictStr e.2.2]
+
+def routJson : ROut → Json
+  | .ok => jobj [("k", "ok"), ("errs", Json.arr #[])]
+  | .first e => jobj [("k", "first"), ("errs", Json.arr #[perrJson e])]
+  | .multi es => jobj [("k", "multi"), ("errs", Json.arr (es.map perrJson).toArray)]
+
+def idxIn (ps : List Param) (p : Param) : Int :=
+  let rec go : List Param → Nat → Int
+    | [], _ => -1
+    | q :: qs, i => if q = p then Int.ofNat i else go qs (i + 1)
+  go ps 0
+
+def docJson (d0 d : Doc) : Json :=
+  jobj [("pathItem", Json.arr ((d.pathItem.map (fun p => toJson (idxIn d0.pathItem p))).toArray)),
+        ("operation", Json.arr ((d.operation.map (fun p => toJson (idxIn d0.operation p))).toArray))]
+
+def handleReq (j : Json) : Json :=
+  let d : Doc := ⟨(getArr j "pathItem").map parseParam, (getArr j "operation").map parseParam⟩
+  let calls : List (CallOpts × FullReq) :=
+    (getArr j "calls").map (fun c => (⟨getBool c "excludeQuery", getBool c "multi"⟩, parseFullReq (getD c "req" .null)))
+  let run := runCalls d calls
+  let specOuts := specCalls d calls
+  let all := d.pathItem ++ d.operation
+  let excl :=
+    (if (effective d).any CookieExplode then ["CookieExplode"] else []) ++
+    (if (effective d).any EnumGoType then ["EnumGoType"] else []) ++
+    (if (effective d).any UntypedSchema then ["UntypedSchema"] else [])
+  let unsupported := calls.any (fun c => all.any (fun p =>
+    let r := reqFor p c.2
+    (schLeaves p.schema).any (unsupportedLeaf p.cell p.name r) ||
+    ((schLeaves p.schema).any leafHasNum && (reqStrings r).any exoticNumberText)))
+  let overridden := d.pathItem.filter (fun p => declares d.operation p.cell.loc p.name)
+  let modelErrs := (calls.map (fun c => requestErrors validateParameter d c.1 c.2))
+  let specSame := (modelErrs.zip specOuts).all (fun ms => ms.1.all (fun e => ms.2.contains e) && ms.2.all (fun e => ms.1.contains e))
+  let exBefore : Bool :=
+    let rec go : List (CallOpts × FullReq) → Bool → Bool
+      | [], _ => false
+      | c :: cs, seen => (seen && !c.1.excludeQuery) || go cs (seen || c.1.excludeQuery)
+    go calls false
+  let branches :=
+    ["mode.request", s!"req.calls.{min calls.length 4}", s!"req.pathItem.{min d.pathItem.length 4}", s!"req.operation.{min d.operation.length 4}"] ++
+    (if overridden.isEmpty then [] else ["req.override", s!"req.override.{locStr (overridden.headD (parseParam .null)).cell.loc}"]) ++
+    (if calls.any (fun c => c.1.excludeQuery) then ["req.excludeQuery"] else []) ++
+    (if calls.any (fun c => c.1.multi) then ["req.multiError"] else []) ++
+    (if exBefore then ["req.history.excludeThenDefault"] else []) ++
+    ((run.2.map (fun o => match o with | .ok => "req.out.ok" | .first _ => "req.out.first" | .multi _ => "req.out.multi")).eraseDups) ++
+    ((modelErrs.flatten.map (fun e => s!"req.err.{locStr e.1}.{verdictStr e.2.2}")).eraseDups) ++
+    (if unsupported then ["unsupported.notCompared"] else []) ++
+    (if !specSame then ["model≠spec"] else [])
+  jobj [
+    ("model", jobj [("calls", Json.arr (run.2.map routJson).toArray), ("doc", docJson d run.1)]),
+    ("spec", jobj [("calls", Json.arr (specOuts.map (fun es => Json.arr (es.map perrJson).toArray)).toArray), ("doc", docJson d d),
+                   ("enc_ok", Json.bool true), ("oracle", Json.bool false), ("decode_agrees", Json.bool true)]),
+    ("excl", jstrs excl),
+    ("unsupported", Json.bool unsupported),
+    ("branches", jstrs branches)]
+
 def handle (j : Json) : Json :=
-  if getStr j "mode" == "content" then handleContent j
+  if getStr j "mode" == "req" then handleReq j
+  else if getStr j "mode" == "content" then handleContent j
   else if getStr (getD j "schema" .null) "k" == "nest" then handleNest j else handleFlat j
 
 end KinModel.Drv.C05
